@@ -154,7 +154,7 @@ def documents(xml=False, max_leaves=25):
     void = st.builds(lambda nm, a, ws: {'t': 'el', 'kind': 'void', 'name': nm, 'attrs': a, 'ws': ws, 'children': []}, st.sampled_from(VOID), attrs, tws)
     selfc = st.builds(lambda nm, a, ws: {'t': 'el', 'kind': 'self', 'name': nm, 'attrs': a, 'ws': ws}, st.sampled_from(NAMES + VOID), attrs, st.sampled_from(['', ' ']))
     leaves = [text, text, comment, void, selfc, selfc]
-    if not xml:
+    if True:
         body = st.sampled_from(['', 'var a = "<div>";', 'if (a</b>) {}', '<p>', 'x<y', '<!-- </x> -->', 'a{b:c}', '</scrip>', '</ script>'])
         def special(nm, typ, a, b):
             at = [x for x in a if x[1] != 'type']
@@ -162,9 +162,7 @@ def documents(xml=False, max_leaves=25):
                 at = [[' ', 'type', 'dq', typ]] + at
             return {'t': 'el', 'kind': 'special', 'name': nm, 'attrs': at, 'ws': '', 'body': b}
         leaves.append(st.builds(special, st.sampled_from(['script', 'style']), st.sampled_from(SPECIAL_TYPES), attrs, body))
-    else:
-        leaves += [cdata, pi]
-    leaves += [cdata, pi] if not xml else []
+    leaves += [cdata, pi]
     leaf = st.one_of(*leaves)
 
     def pair(children):
